@@ -291,7 +291,7 @@ func rulePDF417Arith(c *Ctx) {
 			eachInstr(fn, func(b *ssa.BasicBlock, ins ssa.Instruction) {
 				if sl, ok := ins.(*ssa.Slice); ok && sl.X == ssa.Value(fn.Params[0]) {
 					c.expectPoly(RN, "pdf417.encodeNumeric/chunk-start", sl.Pos(), n, sl.Low, "ch*44")
-					cs := n.valueCases(fn, loopBodyStart(outer), sl.High, 0)
+					cs := n.valueCases(fn, n.BodyStart(outer), sl.High, 0)
 					checkCases(c, RN, "pdf417.encodeNumeric/chunk-end", sl.Pos(), cs, []edgeSpec{{"ch*44 + 44", "ch*44 + 44 <= len(digits)"}, {"len(digits)", "ch*44 + 44 > len(digits)"}})
 				}
 			})
